@@ -404,6 +404,9 @@ func TestC10(t *testing.T) {
 		return c10Hdr{Others: genRecipients(t, 4, false, true), Pos: rapid.IntRange(0, 8).Draw(t, "pos"), Second: rapid.IntRange(0, 3).Draw(t, "second") == 0, WF: rapid.IntRange(1, 4).Draw(t, "wf"), Pass: genPass(t), WithOthers: rapid.Bool().Draw(t, "withOthers")}
 	}, hdr)
 
+	// the CLI's LazyScryptIdentity (cmd/age/encrypted_keys.go), in-package
+	overlayCheck(s, "C10", "cli-lazy-identity", "TestVerifOverlayC10", s.N(1500, 6000))
+
 	maxK := 13
 	if s.Thorough() {
 		maxK = 15
